@@ -16,12 +16,12 @@ from tie import framework
 from tie.framework import TieBroken, g_N, g_bool, g_list, g_opt, run_impl_parallel
 
 PROP = "C03"
-IMPORTS = ("From JV Require Import Lib.Base Model.C03ExnFlow Spec.C03ChannelSpec Gen.C03ExnIR Model.C03Instance Corr.C03Judge.\n"
+IMPORTS = ("From JV Require Import Lib.Base Model.C03ExnFlow Spec.C03ChannelSpec Gen.C03ExnIR Model.C03Instance Model.C03Cycle Spec.C03CycleSpec Gen.C03Cycle Corr.C03Judge.\n"
            "Open Scope N_scope.")
-RULE = ("one case = (parser shape, exit_on_error, parse method, input[, up to two earlier calls on the same parser object]). Eight parser shapes (basic typed options incl. nested "
+RULE = ("one case = (parser shape, exit_on_error, parse method, input[, up to two earlier calls on the same parser object]) — or one call of yaml_load on a text with anchors and aliases (200 quick / 4000 thorough texts from the alias grammar: cycles and sharing through lists, mappings and the tuples of !!pairs/!!omap), whose loaded value is handed to Coq as a heap and judged against the model of the cycle check. Nine parser shapes (basic typed options incl. nested "
         "keys/Any/Union/Enum; subclass types incl. Type[]/Callable/List/Dict of classes; dataclass types incl. List/Dict/nested; "
         "required subcommands with their own --cfg; plain argparse type= callables/choices/nargs/FileType; Path types + "
-        "ActionParser; the basic shape again with parser_mode='json'; the types jsonargparse registers itself: Decimal, timedelta, datetime, complex, UUID, Path, Pattern, bytes, range), sub-command parsers and the ActionParser parser built with the root's exit_on_error, with the constructor default or with the opposite value, optionally with a default config file. Inputs from a grammar: option names known / unknown / malformed "
+        "ActionParser; the basic shape again with parser_mode='json'; the types jsonargparse registers itself: Decimal, timedelta, datetime, complex, UUID, Path, Pattern, bytes, range; options declared with enable_path=True — list, dict, subclass, dataclass, Optional[str], Union[int, str] — plus a subclass option with a class_path default), parse_args also without a list (sys.argv), with non-str items and with namespace=; sub-command parsers and the ActionParser parser built with the root's exit_on_error, with the constructor default or with the opposite value, optionally with a default config file. Inputs from a grammar: option names known / unknown / malformed "
         "(dotted, empty segments, '+' suffix, sub-keys of subclass/dict/dataclass arguments, .help, class_path/init_args/"
         "dict_kwargs, the reserved bookkeeping keys __default_config__/__path__/__orig__) x values well- and ill-formed for the declared type (broken JSON/YAML, anchors and self-referential "
         "aliases, tags, NUL bytes, non-importable / non-class / malformed import paths, wrong-typed class_path/init_args, "
@@ -46,14 +46,15 @@ ASSUMPTIONS = [
     "parser_mode='yaml' (and 'json' for one parser shape, judged against the yaml-mode IR: JSONDecodeError takes the place of YAMLError); no jsonnet/toml/omegaconf loaders (toml shows the same integer-digit-limit leak as json did: notes/C03.md), URL/fsspec paths, completions, deprecated error_handler, "
     "JSONARGPARSE_DEBUG unset, stdin closed; functions behind get_class_parser (signature inspection) are summarised (BOUNDARY)",
     "parsers nested below the root (sub-command parsers, ActionParser) may be built with any exit_on_error; what is judged is the channel of the ROOT parser whose parse method is called",
-    "argv items are str (a config object may be anything: a non-mapping must be refused through the channel)",
+    "an argv item that is not a str and a config object that is not a mapping must be refused through the channel (both are in the generated space)",
+    "the cycle-check theorem (C03_cycle_check_sound) is about the value as a heap of dict/list/tuple/other nodes: that PyYAML builds exactly these containers, and that the walks of the parse path follow only the items of dicts, lists and tuples, is trusted (tied by the yaml_load cases: accept/refuse of the real function against the model, per text)",
     "user code run during parsing (registered deserialisers, link compute functions, plain type= callables) keeps to its documented "
     "failure classes",
 ]
 EXHAUSTIVE = {"quick": False, "thorough": False}
 FINDING_CLASSES = dict(T.FINDING_KEYS)
 META = {
-    "level_text": "proof (partial): analysis soundness for all IR programs + single-channel theorem over all executions of the regenerated IR, guarded by 29 finding site classes; implicit runtime exceptions and termination by correspondence only",
+    "level_text": "proof (partial): analysis soundness for all IR programs + single-channel theorem over all executions of the regenerated IR, guarded by 30 finding site classes; the alias-cycle check of yaml_load proved for all heaps to leave only walkable values (guard: tuples descended or absent); other implicit runtime exceptions and termination by correspondence only",
     "level_note": (
         "Proved in Coq: (1) C03_analysis_sound — for every exception-flow IR program, table passing the executable post-fixpoint "
         "check, mode and function, every raise site that an execution of the nondeterministic big-step semantics lets escape is in "
@@ -64,15 +65,21 @@ META = {
         "listed finding site; (3) C03_error_is_the_channel — ArgumentParser.error never returns and raises exactly ArgumentError "
         "resp. SystemExit(2); (4) per finding a machine-checked execution witness (oracle-driven interpreter proved to follow the "
         "semantics) that the unguarded statement is false on the current tree, in a form that keeps checking once the site no "
-        "longer escapes. Only exercised by the correspondence: implicit exceptions (AttributeError, RecursionError, ... at arbitrary "
+        "longer escapes; (5) C03_cycle_check_sound / C03_cycle_check_meets_spec — the one implicit-exception family that is inside a theorem: "
+        "for ALL heaps (loaded YAML values with sharing and alias cycles), roots and fuels, a value that the model of "
+        "_has_reference_cycle (identity test against the ancestors, short-circuit any; which containers it descends is regenerated "
+        "from its source) accepts can be walked through mappings, lists and tuples to any depth without re-entering a node, i.e. no "
+        "recursive walk of the parse path over it is deeper than the number of its nodes — provided the check descends tuples or the "
+        "value holds none (guard cyc_guard; outside it C03_cycle_check_pairs_refuted: the heap of `&x !!pairs [k: *x]` is accepted and "
+        "not walkable, finding yaml-alias-cycle-through-pairs). Only exercised by the correspondence: the other implicit exceptions (AttributeError, RecursionError, ... at arbitrary "
         "expressions), termination, the stderr shape of the exit-2 channel, everything behind the BOUNDARY summaries and the "
         "name-based call resolution. Trusted: the ast->IR translator and its committed tables, tied by checking at site level that "
         "every escape observed on the real code is in the model's escape set."),
-    "technique": "abstract interpretation (exception escape analysis) proved sound once in Coq against a nondeterministic big-step semantics; instance discharged by vm_compute on an IR regenerated from the source; executable witnesses via a verified oracle interpreter; site-level structured fuzz as the tie",
+    "technique": "abstract interpretation (exception escape analysis) proved sound once in Coq against a nondeterministic big-step semantics; instance discharged by vm_compute on an IR regenerated from the source; executable witnesses via a verified oracle interpreter; site-level structured fuzz as the tie; for the alias-cycle check a Gallina model of the function over heaps, proved by induction on its fuel against an executable walkability spec, tied per text by handing the loaded value to Coq as a heap",
 }
 
 ENTRIES = ["parse_args", "parse_object", "parse_string", "parse_env", "parse_path"]
-SHAPES = ["basic", "classes", "dataclass", "subcommands", "plain", "paths", "json", "registered", "subcommands"]
+SHAPES = ["basic", "classes", "dataclass", "subcommands", "plain", "paths", "json", "registered", "subcommands", "subpaths"]
 
 _meta_cache = {}
 
@@ -101,16 +108,58 @@ def translate():
 
     implicit = validate_implicit_sites()
     prog = X.translate(implicit_sites=implicit)
+    cyc = translate_cycle_check()
     ok, log, _ = framework.build(["Corr/C03Judge.vo"])
     if not ok:
         raise TieBroken("C03 judge does not build on the regenerated IR: %s" % log[-600:])
+    if cyc.get("unrecognised"):
+        raise TieBroken("_loaders_dumpers._has_reference_cycle is not of the modelled shape (Model/C03Cycle.v): %s" % cyc["unrecognised"])
     return {
+        "cycle_check": cyc,
         "translate_exn_ir": "%d functions, %d raise sites, %d exception classes, %d Jacobi rounds; package has %d functions"
                             % (len(prog["functions"]), len(prog["sites"]), len(prog["classes"]), prog["rounds"], prog["n_package_functions"]),
         "implicit_sites_reproduced": [s[0] + ":" + s[1] for s in implicit],
         "finding_witnesses": prog["witnesses"],
         "tables_used": prog["tables_used"],
     }
+
+
+_CYCLE_TEMPLATE = ("def _has_reference_cycle(value, parents=()) -> bool:\n"
+                   "    if not isinstance(value, (%s)):\n"
+                   "        return False\n"
+                   "    if any((value is p for p in parents)):\n"
+                   "        return True\n"
+                   "    items = value.values() if isinstance(value, dict) else value\n"
+                   "    return any((_has_reference_cycle(v, parents + (value,)) for v in items))")
+
+
+def translate_cycle_check():
+    """Gen/C03Cycle.v: which containers the cycle check of yaml_load descends, read from the source of _has_reference_cycle. The
+    function must have the shape Model/C03Cycle.has_cycle renders (identity test against the ancestors, short-circuit any over the
+    values of a dict / the items of a sequence); anything else is refused (fail closed) after writing the flag the isinstance test
+    suggests, so that the correspondence still runs and finds the input."""
+    import ast
+
+    path = os.path.join(framework.REPO, "jsonargparse", "_loaders_dumpers.py")
+    tree = ast.parse(open(path).read())
+    fn = next((n for n in tree.body if isinstance(n, ast.FunctionDef) and n.name == "_has_reference_cycle"), None)
+    text = ast.unparse(fn) if fn is not None else ""
+    flag, bad = False, None
+    if text == _CYCLE_TEMPLATE % "dict, list":
+        flag = False
+    elif text == _CYCLE_TEMPLATE % "dict, list, tuple":
+        flag = True
+    else:
+        flag = "tuple" in text.split("return False")[0]
+        bad = "function missing" if fn is None else text[:400]
+    out = os.path.join(framework.COQ, "Gen", "C03Cycle.v")
+    body = ("(* GENERATED by tie/props/c03.py translate_cycle_check from jsonargparse/_loaders_dumpers.py: does\n"
+            "   _has_reference_cycle descend tuples (isinstance(value, (dict, list, tuple)))? *)\n"
+            "Definition cyc_tuples : bool := %s.\n" % ("true" if flag else "false"))
+    if not os.path.exists(out) or open(out).read() != body:
+        with open(out, "w") as f:
+            f.write(body)
+    return {"descends_tuples": bool(flag), "unrecognised": bad}
 
 
 def validate_implicit_sites():
@@ -137,7 +186,12 @@ OPTS = {
     "subcommands": ["a", "cfg", "fit.p", "fit.cal", "fit.cfg", "test.q", "test.name", "subcommand", "fit", "test"],
     "plain": ["pt", "it", "ch", "m", "mc", "mq", "ms", "flag", "cnt", "a", "cfg"],
     "paths": ["p", "lp", "op", "inner", "inner.v", "inner.w.k", "a", "cfg"],
+    # options declared with enable_path=True (the value may be the path of a file holding it), a subclass option with a
+    # class_path default, str-accepting unions
+    "subpaths": ["el", "ed", "ecal", "edc", "eos", "eus", "wcal", "us", "a", "cfg"],
 }
+SUBPATH_VALUES = ["list.yaml", "dict.yaml", "cal.yaml", "dc.yaml", "good.yaml", "bad.yaml", "bin.yaml", "rec.yaml", "empty.yaml", "missing.yaml", "d", "-", "case.yaml", "case.yaml",
+                  "pairs.yaml", "a\x00b", "/proc/self/mem", "", "x" * 300]
 SUBKEYS = ["class_path", "init_args", "init_args.firstweekday", "firstweekday", "dict_kwargs.k", "help", "x", "y", "inner.x", "k",
            "init_args.", "zz", "0", "a.b"]
 IMPORT_PATHS = ["calendar.Calendar", "calendar.TextCalendar", "calendar.HTMLCalendar", "TextCalendar", "os.path", "nomod.X", "calendar.Nope",
@@ -210,6 +264,8 @@ def gen_alias(rng):
     containers (list or one-key/two-key mapping, same or different shape as the anchored one), then the alias — or plain sharing,
     two anchors referring to each other, an alias to an enclosing non-root container, several aliases in siblings"""
     def wrap(kind, inner, rng):
+        if kind == "p":  # !!pairs / !!omap: a list of (key, value) TUPLES
+            return rng.choice(["!!pairs [k: %s]", "!!omap [k: %s]", "!!pairs [a: 1, k: %s]", "!!pairs [[k, %s]]", "!!omap [%s: 1]"]).replace("%s", inner)
         if kind == "l":
             return rng.choice(["[%s]", "[%s]", "[1, %s]", "[%s, %s]"]).replace("%s", inner)
         key = rng.choice(["a", "a", "b"])
@@ -217,16 +273,18 @@ def gen_alias(rng):
 
     r = rng.random()
     if r < 0.12:   # sharing without a cycle
-        return rng.choice(["[&a [1, 2], *a]", "{p: &a {k: 1}, q: *a}", "[&a x, *a, *a]", "{a: &s [1], b: [*s, *s]}"])
+        return rng.choice(["[&a [1, 2], *a]", "{p: &a {k: 1}, q: *a}", "[&a x, *a, *a]", "{a: &s [1], b: [*s, *s]}", "!!pairs [a: &s [1], b: *s]",
+                           "[&a !!omap [k: 1], *a]"])
     if r < 0.20:   # two anchors referring to each other
         k = rng.choice(["a", "b"])
         return rng.choice(["&x {%s: &y {%s: *x}, b: *y}" % (k, k), "&x [&y [*x], *y]", "&x [&y {a: *x}, *y]"])
-    root = rng.choice(["l", "l", "d"])
+    tuples = rng.random() < 0.3   # containers that load as tuples take part
+    root = rng.choice(["l", "l", "d", "p", "p"] if tuples else ["l", "l", "d"])
     depth = rng.choice([0, 0, 1, 1, 1, 2, 3])
     same = rng.random() < 0.6
     inner = "*x"
     for _ in range(depth):
-        kind = root if same else rng.choice(["l", "d"])
+        kind = root if same else rng.choice(["l", "d", "p", "p"] if tuples else ["l", "d"])
         inner = wrap(kind, inner, rng)
     val = "&x " + wrap(root, inner, rng)
     if rng.random() < 0.25:  # the cycle does not go through the root of the value
@@ -302,6 +360,8 @@ def value_for(rng, shape, name):
         value = rng.choice(SUBCMD_VALUES if name == "subcommand" else SUBCMD_BODIES)
     elif name in GROUP_OPTS.get(shape, ()) and rng.random() < 0.7:
         value = rng.choice(GROUP_VALUES)
+    elif shape == "subpaths" and name.split(".")[0].rstrip("+").startswith("e") and rng.random() < 0.55:
+        value = rng.choice(SUBPATH_VALUES)
     return value
 
 
@@ -494,6 +554,12 @@ def directed():
         for entry, inp in (("parse_object", {"a": 2}), ("parse_string", "a: 2\n"), ("parse_env", {"APP_A": "2"}), ("parse_path", "good.yaml"),
                            ("parse_args", ["--a=2"])):
             D.append({"shape": "basic", "x": x, "entry": entry, "input": inp, "history": [failed]})
+    for x in (False, True):                                                       # ... failed through EVERY route (type error, unrecognised option, missing value, stray positional, inside a sub-command), then a good call
+        for shape, bads in (("basic", (["--print_config", "--zz=1"], ["--print_config", "--a"], ["--print_config", "stray"], ["--print_config=comments", "--n.x"], ["-h", "--zz"])),
+                            ("subcommands", (["--print_config", "fit", "--zz"], ["--print_config", "fit", "--p=x"], ["--print_config", "zzz"], ["--print_config"]))):
+            for bad in bads:
+                for entry in ("parse_args", "parse_object", "parse_string"):
+                    D.append({"shape": shape, "x": x, "entry": entry, "input": valid_input(shape, entry), "history": [{"entry": "parse_args", "input": bad}]})
     for t in ODD_NUMBERS[:6] + ["9" * 4400]:                                       # the whole config text / file / env value is one odd scalar
         add("basic", "parse_string", t)
         add("basic", "parse_path", "case.yaml", files={"case.yaml": t})
@@ -544,6 +610,27 @@ def directed():
         add("dataclass", "parse_args", ["--dc=" + v])
         add("dataclass", "parse_object", {"out": v})
         add("paths", "parse_env", {"APP_INNER": v})
+    add("basic", "parse_args", ["--any=&x !!pairs [k: *x]"])                         # yaml-alias-cycle-through-pairs
+    add("basic", "parse_args", ["--any", "&x !!omap [k: *x]"])
+    add("basic", "parse_string", "any: &x !!omap [k: *x]\n")
+    add("basic", "parse_string", "zz: &x !!pairs [k: *x]\n")
+    add("basic", "parse_args", ["--cfg=case.yaml"], files={"case.yaml": "any: [&x !!pairs [k: [*x]]]\n"})
+    add("basic", "parse_args", ["--l=&x !!pairs [k: *x]"])
+    for t in ("&x !!pairs [k: *x]", "&x !!omap [k: *x]", "&x [!!pairs [k: *x]]", "[&x !!pairs [[k, [*x]]]]", "&x [*x]", "&x [[*x]]", "&x {a: {a: *x}}", "{a: &x [1, *x]}",
+              "[&a [1, 2], *a]", "!!pairs [a: &s [1], b: *s]", "&x !!pairs [[*x, 1]]", "{p: &a {k: 1}, q: *a}", "&x [&y [*x], *y]", "x", "[1,"):
+        D.append({"shape": "basic", "x": False, "entry": "cycle_check", "input": t})   # the cycle check of yaml_load on its own
+    for x in (False, True):                                                       # enable_path options, a subclass default, argv from sys.argv / with non-str items / with namespace=
+        for inp in (["--el=list.yaml"], ["--el=missing.yaml"], ["--ed=dict.yaml"], ["--eos=good.yaml"], ["--ecal=cal.yaml"], ["--ecal=bad.yaml"], ["--edc=dc.yaml"],
+                    ["--wcal.firstweekday=3"], ["--wcal.init_args.firstweekday=x"], ["--ed=pairs.yaml"], ["--us=x"], ["--eus=bad.yaml"]):
+            D.append({"shape": "subpaths", "x": x, "entry": "parse_args", "input": inp})
+        D.append({"shape": "subpaths", "x": x, "entry": "parse_string", "input": "el: list.yaml\ned: missing.yaml\n"})
+        D.append({"shape": "subpaths", "x": x, "entry": "parse_object", "input": {"ecal": "cal.yaml", "wcal": {"init_args": {"firstweekday": 4}}}})
+        D.append({"shape": "basic", "x": x, "entry": "parse_args", "input": ["--a=2"], "argv_via": "sys"})
+        D.append({"shape": "basic", "x": x, "entry": "parse_args", "input": ["--a=x"], "argv_via": "sys"})
+        D.append({"shape": "basic", "x": x, "entry": "parse_args", "input": ["--a=2", 5]})
+        D.append({"shape": "basic", "x": x, "entry": "parse_args", "input": [None]})
+        D.append({"shape": "basic", "x": x, "entry": "parse_args", "input": ["--f=2"], "namespace": {"a": 3}})
+        D.append({"shape": "basic", "x": x, "entry": "parse_args", "input": [], "namespace": {"a": "x", "zz": 1}})
     add("basic", "parse_env", {"APP_ANY": "{class_path: calendar.Calendar, init_args: 3}"})   # any-class-spec-init-args-not-mapping
     add("basic", "parse_object", {"any": {"class_path": "calendar.Calendar", "init_args": 3}})
     # the channels themselves
@@ -571,6 +658,20 @@ def directed():
     return D
 
 
+def valid_input(shape, entry):
+    """an input every parser shape accepts (all declare --a: int; the sub-command shape also needs its sub-command; flow-style
+    text is both YAML and JSON): what an application sends after it has caught the error of an earlier call"""
+    sub = shape == "subcommands"
+    if entry == "parse_args":
+        return ["--a=2", "fit"] if sub else ["--a=2"]
+    if entry == "parse_object":
+        return {"a": 2, "subcommand": "fit"} if sub else {"a": 2}
+    if entry == "parse_env":
+        return {"APP_A": "2", "APP_SUBCOMMAND": "fit"} if sub else {"APP_A": "2"}
+    text = '{"a": 2, "subcommand": "fit"}' if sub else '{"a": 2}'
+    return text if entry == "parse_string" else "case.yaml"
+
+
 def gen_case(rng, shape=None, entry=None, history=True):
     shape = shape or rng.choice(SHAPES)
     entry = entry or rng.choices(ENTRIES, weights=[40, 20, 20, 10, 10])[0]
@@ -590,6 +691,17 @@ def gen_case(rng, shape=None, entry=None, history=True):
     if shape in ("subcommands", "paths"):
         # parsers nested below the root are not necessarily built with the root's exit_on_error
         c["nested_x"] = rng.choice(["same", "default", "opposite"])
+    if entry == "parse_args":
+        r = rng.random()
+        if r < 0.06:
+            c["argv_via"] = "sys"   # parse_args() without a list: the arguments are taken from sys.argv[1:]
+        elif r < 0.09:
+            # an item that is not a str (a caller that forwards parsed values): must be refused through the channel
+            c["input"].insert(rng.randrange(len(c["input"]) + 1), copy.deepcopy(rng.choice([5, None, 2.5, True, ["--a=1"], {"a": 1}])))
+        elif r < 0.13:
+            ns = gen_object(rng, shape)   # parse_args(argv, namespace=<a Namespace holding earlier values>)
+            if isinstance(ns, dict) and "$" not in ns:
+                c["namespace"] = ns
     if rng.random() < 0.04:
         c["cwd"] = "deleted"  # environment fault: the working directory of the process is removed before the call
     if rng.random() < 0.12:
@@ -608,18 +720,44 @@ def gen_case(rng, shape=None, entry=None, history=True):
                 h = gen_case(rng, shape, history=False)
                 hist.append({"entry": h["entry"], "input": h["input"]})
         c["history"] = hist
+        if rng.random() < 0.4:
+            # the application goes on with a GOOD call (or one that only fails at validation): whatever the earlier calls left
+            # behind on the parser must not change how this one ends
+            c["input"] = valid_input(shape, entry) if rng.random() < 0.8 else ([] if entry == "parse_args" else {} if entry in ("parse_object", "parse_env") else "{}" if entry == "parse_string" else "case.yaml")
+            if entry == "parse_path":
+                c["files"] = {"case.yaml": valid_input(shape, "parse_string") if c["input"] == "case.yaml" and rng.random() < 0.8 else "{}"}
+            c.pop("namespace", None)
     dcf = gen_dcf(rng, shape)
     if dcf is not None:
         c["dcf"] = dcf
     return c
 
 
+def gen_cycle_cases(rng, n, seen):
+    """texts with anchors and aliases for ONE call of yaml_load each (judged against Model/C03Cycle + Spec/C03CycleSpec)"""
+    out = []
+    for _ in range(8 * n):
+        if len(out) >= n:
+            break
+        t = gen_alias(rng)
+        if rng.random() < 0.3:   # several aliased values next to each other / inside one more container
+            t = rng.choice(["[%s, %s]", "{p: %s, q: %s}", "!!pairs [p: %s, q: %s]"]) % (t, gen_alias(rng).replace("&x", "&y").replace("*x", "*y"))
+        c = {"shape": "basic", "x": False, "entry": "cycle_check", "input": t}
+        k = json.dumps(c, sort_keys=True)
+        if k not in seen:
+            seen.add(k)
+            out.append(c)
+    return out
+
+
 def generate(rng, tier):
     n = 1500 if tier == "quick" else 30000
     cases = directed()
     seen = set(json.dumps(c, sort_keys=True) for c in cases)
+    cases += gen_cycle_cases(rng, 200 if tier == "quick" else 4000, seen)
     tries = 0
-    while len(cases) < 2 * n + 100 and tries < 10 * n:
+    target = len(cases) + 2 * n
+    while len(cases) < target and tries < 10 * n:
         tries += 1
         c = gen_case(rng)
         try:
@@ -707,12 +845,30 @@ import re as _re
 _ANCHOR_USE = _re.compile(r"&([A-Za-z0-9_]+)\b.*\*\1\b", _re.S)
 
 
-def _cyclic(v, parents=()):
-    if not isinstance(v, (dict, list)):
+def _cyclic(v, parents=(), kinds=(dict, list)):
+    if not isinstance(v, kinds):
         return False
     if any(v is p for p in parents):
         return True
-    return any(_cyclic(i, parents + (v,)) for i in (v.values() if isinstance(v, dict) else v))
+    return any(_cyclic(i, parents + (v,), kinds) for i in (v.values() if isinstance(v, dict) else v))
+
+
+def _text_tuplecyc(t):
+    """the text loads (as a whole or after its first '=') to a value with an alias cycle through a tuple (!!pairs / !!omap build
+    lists of tuples) and without a cycle through mappings and lists alone"""
+    if not _ANCHOR_USE.search(t) or ("!!pairs" not in t and "!!omap" not in t):
+        return False
+    import yaml
+    for cand in (t, t.split("=", 1)[-1]):
+        try:
+            v = yaml.safe_load(cand)
+        except RecursionError:
+            return False
+        except Exception:  # noqa
+            continue
+        return _cyclic(v, (), (dict, list, tuple)) and not _cyclic(v)
+    # a config text whose lines are `key: value`: judge the values one by one
+    return any(_text_tuplecyc(l.split(": ", 1)[1]) for l in t.splitlines() if ": " in l and l.split(": ", 1)[1] != t)
 
 
 def _text_selfref(t):
@@ -746,7 +902,7 @@ def asked(case):
                 yield from strings(k)
                 yield from strings(i)
 
-    texts = list(strings(case["input"])) + list(strings(case.get("files") or {})) + [case.get("dcf") or ""]
+    texts = list(strings(case["input"])) + list(strings(case.get("files") or {})) + [case.get("dcf") or ""] + list(strings(case.get("namespace") or {}))
     return any(a in t.lower() for t in texts for a in _ASKS)
 
 
@@ -784,7 +940,7 @@ def deep(case):
             return any(walk(k) or walk(i) for k, i in v.items())
         return False
 
-    return walk(case["input"]) or walk(case.get("files") or {}) or walk(case.get("dcf") or "")
+    return walk(case["input"]) or walk(case.get("files") or {}) or walk(case.get("dcf") or "") or walk(case.get("namespace") or {})
 
 
 def selfref(case):
@@ -800,14 +956,40 @@ def selfref(case):
                 yield from strings(k)
                 yield from strings(i)
 
-    texts = list(strings(case["input"])) + list(strings(case.get("files") or {})) + [case.get("dcf") or ""]
+    texts = list(strings(case["input"])) + list(strings(case.get("files") or {})) + [case.get("dcf") or ""] + list(strings(case.get("namespace") or {}))
     if any(t in ("rec.yaml",) or t.endswith("=rec.yaml") for t in texts):
         return True
     return any(_text_selfref(t) for t in texts)
 
 
+def tuplecyc(case):
+    """does the input hold a YAML alias cycle that passes through a tuple (and is not a cycle of mappings/lists anyway)?"""
+    def strings(v):
+        if isinstance(v, str):
+            yield v
+        elif isinstance(v, list):
+            for i in v:
+                yield from strings(i)
+        elif isinstance(v, dict):
+            for k, i in v.items():
+                yield from strings(k)
+                yield from strings(i)
+
+    texts = list(strings(case["input"])) + list(strings(case.get("files") or {})) + [case.get("dcf") or ""] + list(strings(case.get("namespace") or {}))
+    if any("pairs.yaml" in t for t in texts):   # the standard scratch file holding `k: &x !!pairs [k: *x]`
+        return True
+    return any(_text_tuplecyc(t) for t in texts)
+
+
+def g_heap(o):
+    if o.get("k") != "cyc":
+        return "None"
+    return "(Some (%s, %s, %s))" % (g_list(["(%s, %s)" % (g_N(k), g_list([g_N(i) for i in items], "N")) for k, items in o["heap"]], "(N * list N)"),
+                                    g_N(o["root"]), g_bool(o["rejected"]))
+
+
 def g_obs(o):
-    if o["k"] == "ret":
+    if o["k"] in ("ret", "cyc"):
         return "Returned"
     if o["k"] == "hung":
         return "Hung"
@@ -819,18 +1001,28 @@ def g_obs(o):
 def term(case, obs):
     m = ir_meta()
     cid, sites = attribute(obs)
-    return "{| c_x := %s; c_entry := %s; c_obs := %s; c_cls := %s; c_sites := %s; c_selfref := %s; c_deep := %s; c_asked := %s; c_nonmap := %s; c_subcmd := %s |}" % (
+    if case["entry"] == "cycle_check":
+        # one call of yaml_load; anything but accept/refuse (an exception out of yaml_load itself, a hang) is judged as an escape
+        # that no site explains
+        return ("{| c_x := false; c_entry := %s; c_obs := %s; c_cls := None; c_sites := []; c_selfref := false; c_deep := false; c_asked := false; "
+                "c_nonmap := false; c_subcmd := false; c_tuplecyc := false; c_heap := %s |}" % (g_N(m["entries"]["parse_string"]), g_obs(obs), g_heap(obs)))
+    return "{| c_x := %s; c_entry := %s; c_obs := %s; c_cls := %s; c_sites := %s; c_selfref := %s; c_deep := %s; c_asked := %s; c_nonmap := %s; c_subcmd := %s; c_tuplecyc := %s; c_heap := None |}" % (
         g_bool(case["x"]), g_N(m["entries"][case["entry"]]), g_obs(obs),
-        g_opt(None if cid is None else g_N(cid)), g_list([g_N(i) for i in sites[:12]], "N"), g_bool(selfref(case)), g_bool(deep(case)), g_bool(asked(case)), g_bool(nonmap(case)), g_bool(case["shape"] == "subcommands"))
+        g_opt(None if cid is None else g_N(cid)), g_list([g_N(i) for i in sites[:12]], "N"), g_bool(selfref(case)), g_bool(deep(case)), g_bool(asked(case)), g_bool(nonmap(case)), g_bool(case["shape"] == "subcommands"), g_bool(tuplecyc(case)))
 
 
 def nontrivial_key(case, obs):
     if obs["k"] == "ret":
         return None
-    return json.dumps([case["shape"], case["x"], case["entry"], case["input"], case.get("dcf"), case.get("files"), case.get("stdin"), case.get("history"), case.get("nested_x"), case.get("cwd")], sort_keys=True)
+    if obs["k"] == "cyc":   # non-trivial: the value holds sharing or a cycle (fewer container nodes than container slots), or is refused
+        return json.dumps(["cycle_check", case["input"]]) if obs["rejected"] or len(obs["heap"]) > 1 else None
+    return json.dumps([case["shape"], case["x"], case["entry"], case["input"], case.get("dcf"), case.get("files"), case.get("stdin"), case.get("history"), case.get("nested_x"), case.get("cwd"),
+                       case.get("argv_via"), case.get("namespace")], sort_keys=True)
 
 
 def category(case, obs):
+    if obs["k"] == "cyc":
+        return "yaml_load/cycle_check/%s%s" % ("refused" if obs["rejected"] else "accepted", "/tuples" if any(k == 2 for k, _ in obs["heap"]) else "")
     if obs["k"] == "exc":
         what = "ArgumentError" if obs["argerr"] else obs["cls"].rsplit(".", 1)[-1]
     elif obs["k"] == "exit":
@@ -843,7 +1035,15 @@ def category(case, obs):
 def describe(case, obs):
     m = ir_meta()
     cid, sites = attribute(obs)
+    if case["entry"] == "cycle_check":
+        return {"call": "jsonargparse._loaders_dumpers.yaml_load(text)", "text": case["input"],
+                "observed": {k: v for k, v in obs.items() if k != "frames"},
+                "reading": "heap = the value PyYAML builds (kind 0 dict / 1 list / 2 tuple / 3 other, item ids); rejected = yaml_load raised YAMLError"}
     d = {"parser_shape": case["shape"], "exit_on_error": case["x"], "method": case["entry"], "input": case["input"]}
+    if case.get("argv_via") == "sys":
+        d["argv"] = "parse_args() called without a list; sys.argv = ['prog'] + input"
+    if case.get("namespace") is not None:
+        d["namespace_argument"] = case["namespace"]
     if case.get("stdin") == "none":
         d["stdin"] = "closed (sys.stdin is None)"
     if case.get("nested_x", "same") != "same":
@@ -876,6 +1076,10 @@ def shrink(case):
         yield {k: v for k, v in case.items() if k != "stdin"}
     if case.get("cwd"):
         yield {k: v for k, v in case.items() if k != "cwd"}
+    if case.get("namespace") is not None:
+        yield {k: v for k, v in case.items() if k != "namespace"}
+    if case.get("argv_via"):
+        yield {k: v for k, v in case.items() if k != "argv_via"}
     if case.get("history"):
         yield {k: v for k, v in case.items() if k != "history"}
         if len(case["history"]) > 1:
@@ -904,7 +1108,8 @@ def search(rng, tier, broken):
     the quick correspondence), first input whose observation is outside the channel and not a listed finding"""
     known = framework.load_known_findings(PROP)
     cases = directed()
-    while len(cases) < 3000:
+    cases += gen_cycle_cases(rng, 200, set())
+    while len(cases) < 3200:
         c = gen_case(rng)
         try:
             json.dumps(c)
